@@ -287,3 +287,61 @@ def reencodeStoreOk (bytes : List UInt8) : Bool :=
   storeBytes (openStore bytes).groupSpecs == bytes
 
 end TantivyModel.SSTable
+
+namespace TantivyModel.SSTable
+open TantivyModel
+
+/-! ### `find_best_slope` (v3.rs) mirrored -/
+
+structure SlopeAcc where
+  minIdx : Nat := 1
+  minVal : Nat := 0
+  minSlope : Nat := 4294967295
+  maxIdx : Nat := 1
+  maxVal : Nat := 0
+  maxSlope : Nat := 0
+
+/-- one iteration of the first loop of find_best_slope (`slope = (value / index) as u32`) -/
+def slopeStep (a : SlopeAcc) (e : Nat × Nat) : SlopeAcc :=
+  let slope := (e.2 / e.1) % 4294967296
+  let a1 : SlopeAcc :=
+    if slope ≤ a.minSlope then { a with minSlope := slope, minIdx := e.1, minVal := e.2 } else a
+  if slope ≥ a1.maxSlope then { a1 with maxSlope := slope, maxIdx := e.1, maxVal := e.2 } else a1
+
+def maxDeviation (slope : Nat) (els : List (Nat × Nat)) : Nat :=
+  (els.map (fun e => deviation slope e.1 e.2)).foldl max 0
+
+/-- mirrors: tantivy_bitpacker::compute_num_bits (with its 56-bit cut-off) -/
+def computeNumBits (n : Nat) : Nat := if numBits n ≤ 56 then numBits n else 64
+
+/-- mirrors: v3.rs::find_best_slope — the slope through the "lowest" and "highest" points, rounded,
+and the width of the largest deviation plus one -/
+def findBestSlope (els : List (Nat × Nat)) : Nat × Nat :=
+  let a := els.foldl slopeStep {}
+  let den := a.minIdx + a.maxIdx
+  let slope := ((a.minVal + a.maxVal + den / 2) / den) % 4294967296
+  (slope, computeNumBits (maxDeviation slope els) + 1)
+
+/-- elements `flush_block` passes for the start offsets: blocks 1.. and the final end -/
+def rangeEls (ref : BlockAddr) (more : List BlockAddr) (lastStop : Nat) : List (Nat × Nat) :=
+  (more.zipIdx 1).map (fun p => (p.2, p.1.start - ref.start)) ++ [(more.length + 1, lastStop - ref.start)]
+
+/-- elements `flush_block` passes for the first ordinals: blocks 1.. -/
+def ordEls (ref : BlockAddr) (more : List BlockAddr) : List (Nat × Nat) :=
+  (more.zipIdx 1).map (fun p => (p.2, p.1.firstOrd - ref.firstOrd))
+
+/-- the store block exactly as `flush_block` parametrises it -/
+def mkGroup (ref : BlockAddr) (more : List BlockAddr) (lastStop : Nat) : GroupSpec :=
+  let r := findBestSlope (rangeEls ref more lastStop)
+  let o := findBestSlope (ordEls ref more)
+  ⟨r.1, r.2, o.1, o.2, ref, more, lastStop⟩
+
+/-- the store blocks of a decoded store re-parametrised by the model's own `find_best_slope` -/
+def Store.writerSpecs (s : Store) : List GroupSpec :=
+  s.groupSpecs.map (fun g => mkGroup g.ref g.more g.lastStop)
+
+/-- the whole store region re-serialised with the model's own slopes and widths = the file bytes -/
+def reencodeStoreOwnOk (bytes : List UInt8) : Bool :=
+  storeBytes (openStore bytes).writerSpecs == bytes
+
+end TantivyModel.SSTable
